@@ -64,8 +64,8 @@ template <int S> struct Runner {
     }
   }
 
-  void run_case(int N, const std::vector<double> &T) {
-    Prob p; p.N = N; p.T = T; p.t0 = 0.0;
+  void run_case(int N, const std::vector<double> &T, double t0) {
+    Prob p; p.N = N; p.T = T; p.t0 = t0;
     int nb = nbasis(S, N);
     for (int b = 0; b < nb; ++b) { set_basis_data(p, S, b); check(p); }
     set_generic_data(p, (uint64_t)c.args.seed * 1000 + N); check(p);
@@ -93,7 +93,7 @@ template <int S> static void explore(Ctx &c, long &id) {
         { long ww = w; for (int i = 0; i < N; ++i) { int l = ww % base; ww /= base; T[i] = base == 2 ? (l ? hi : lo) : (l == 0 ? lo : l == 1 ? mid : hi); haslo |= T[i] == lo; hashi |= T[i] == hi; } }
         double eff_ratio = 1.0; { double mn = T[0], mx = T[0]; for (double t : T) { mn = std::min(mn, t); mx = std::max(mx, t); } eff_ratio = std::round(mx / mn * 1e6) / 1e6; }
         Runner<S> rr(c, unit, eff_ratio);
-        rr.run_case(N, T);
+        rr.run_case(N, T, (w % 2) ? 0.0 : -3.5);
         ++c.st.evaluations;
         std::string key = fmt("S%d/sc%g/r%g/b%d/N%d/w%ld", S, sc, r, base, N, w);
         if (!c.st.seen(key) && haslo && hashi) ++c.st.nontrivial;
